@@ -11,7 +11,7 @@ Each connection is exported twice, without and with -a.  Oracle:
 """
 import random
 
-from vlib import e2e, engine, gen, outparse, scene, tcpcap
+from vlib import corpus, e2e, engine, gen, outparse, scene, tcpcap
 
 
 def parse_meta_stream(stream, events, d, boundaries):
@@ -29,6 +29,10 @@ def parse_meta_stream(stream, events, d, boundaries):
             alts.append(e.wire)
         if e.plain is not None and e.kind in ("ehs", "alert"):
             alts.append(e.plain)
+            # ... or the plaintext wrapped as a record of its real type (the statement fixes the form of the hello records only)
+            inner = 21 if e.kind == "alert" else 22
+            for ver in (b"\x03\x03", e.wire[1:3]):
+                alts.append(bytes([inner]) + ver + len(e.plain).to_bytes(2, "big") + e.plain)
             if not tls13_inner:
                 alts += [e.plain + e.wire, e.wire + e.plain]
         hello = e.kind == "hs" and e.wire[5] in (1, 2) and e.wire[0] == 0x16
@@ -52,6 +56,9 @@ def parse_meta_stream(stream, events, d, boundaries):
 def build(tier, seed):
     thorough = tier == "thorough"
     cases = [{"id": f"case-{i}", "i": i} for i in range(10000 if thorough else 600)]
+    real = corpus.tls_captures()
+    for name, path, _, _ in (real if thorough else real[::4]):
+        cases.append({"id": f"real-{name}", "real": name})
 
     def evalfn(case):
         return eval_case(case, random.Random(engine.subseed("C13", seed, case["id"])))
@@ -72,7 +79,34 @@ def is_subseq(a, b):
     return all(any(x == y for y in it) for x in a)
 
 
+def eval_real(case, rng):
+    """a real OpenSSL capture of the repository: nothing is known about its content, so only the 'only adds' half is judged"""
+    name, path, keys, _ = next(c for c in corpus.tls_captures() if c[0] == case["real"])
+    cap = open(path, "rb").read()
+    out = {"cls": ["real", name], "tags": ["real"], "sample": {"case": case["id"], "capture": name}}
+    r0, f0, a0 = e2e.run_capture(cap, keys, [])
+    r1, f1, a1 = e2e.run_capture(cap, keys, ["-a"])
+    for r, tag, f in ((r0, "run without -a", f0), (r1, "run with -a", f1)):
+        fail = e2e.run_failed(r)
+        if fail:
+            return dict(out, v="inconclusive" if fail.startswith("INCONCLUSIVE") else "violated", msg=f"{tag}: {fail}", files=f)
+    an0, an1 = outparse.Analysis(r0.out), outparse.Analysis(r1.out)
+    msgs = []
+    for key in an0.tcp:
+        p0, p1 = data_packets(an0, key), data_packets(an1, key)
+        if not is_subseq(p0, p1):
+            msgs.append(f"{key[1]}->{key[3]}: the {len(p0)} data packets of the run without -a are not an in-order subsequence of the {len(p1)} packets with -a")
+    if an1.errors:
+        msgs.append("-a output is not well-formed: " + an1.errors[0])
+    out["nontrivial"] = any(an0.tcp.values()) and sum(len(v) for v in an1.tcp.values()) > sum(len(v) for v in an0.tcp.values())
+    if msgs:
+        return dict(out, v="violated", msg=f"real capture {name}: " + "; ".join(msgs[:2]), files=dict(f0, **{"out_plain.pcapng": r0.out, "out_a.pcapng": r1.out}))
+    return dict(out, v="held")
+
+
 def eval_case(case, rng):
+    if case.get("real"):
+        return eval_real(case, rng)
     quic = rng.random() < 0.35
     fl = gen.random_quic_flow(rng, napp=rng.choice([3, 8])) if quic else gen.random_tls_flow(rng, nmax=10, segkinds=tcpcap.CUT_KINDS, min_records=1, perturb=rng.random() < 0.15)
     items = scene.stamp(scene.merge([fl], rng, "concat"), rng, rng.choice(["plain", "plain", "zero"] + (["coarse"] if not quic else [])))
